@@ -174,6 +174,9 @@ func ExplorePart(name string, mk func() (*Env, Driver), depthQuick, depthThoroug
 				workers, _ = strconv.Atoi(v)
 			}
 			cfg := Config{Depth: depth, Workers: workers, Deadline: deadline, Known: known, TxSeqInCanon: txSeq, Seed: Seed()}
+			if v := os.Getenv("VERIF_MAX_VIOLATIONS"); v != "" {
+				cfg.MaxViolations, _ = strconv.Atoi(v)
+			}
 			r := Explore(cfg, mk)
 			rep := PartReport{Name: name, States: r.States, Nontrivial: r.Nontrivial, Transitions: r.Transitions,
 				Validated: r.PrefixReplays, Exhaustive: r.Exhaustive, OpHist: r.OpHist, WallS: r.Wall.Seconds(),
